@@ -11,7 +11,7 @@ checks that the answer is allowed and follows the implementation's choice.
   qadd <id> <sender> <seq> <prio> <stateSeq> <result> <all-ids>     mainQueue.Add (forward+add)
   schedule <limit> <ids in schedule order>
   reset | clear
-  used <id> | forward <sender> <seq>
+  used <id> | usedn <id,id,...> | forward <sender> <seq>
   all <ids sorted>
   st <max-heap ids sorted> <scheduled: a,q,... by a> <senders: a,seq,k,id1..idk,... by a>
       the implementation's state after the previous operation; compared with the
@@ -134,6 +134,14 @@ def step (st : St) (line : String) : St × String :=
     | some id => both (txUsed st.s id) (Impl.handleTxUsed st.i id) st.known
     | none => fail "bad-op"
   | ["used", _, "PANIC"] => fail "implementation panicked in handleTxUsed"
+  | ["usedn", ids] => match parseNats ids with
+    -- one HandleTxsUsed call with several transactions = the single-transaction steps in that order
+    | some ids =>
+      let s' := ids.foldl txUsed st.s
+      let i' := ids.foldl (fun (acc : Except Impl.Fault Impl.State) id => acc.bind (fun i => Impl.handleTxUsed i id)) (.ok st.i)
+      both s' i' st.known
+    | none => fail "bad-op"
+  | ["usedn", _, "PANIC"] => fail "implementation panicked in HandleTxsUsed"
   | ["forward", a, n] => match a.toNat?, n.toNat? with
     | some a, some n => both (forward st.s a n) (Impl.forward st.i a n) st.known
     | _, _ => fail "bad-op"
